@@ -460,4 +460,59 @@ theorem floordiv_parts (occ : Nat) (n as ae : Int) (rel : Bool) (elems : Fib Int
 
 end
 
+/-! ### non-vacuity: the hypotheses of the theorems above are satisfiable by non-trivial values
+    (each theorem is instantiated; every hypothesis is discharged by evaluation) -/
+
+section
+open Ft
+
+private def exF : Fib Int Int := [(1, 10), (2, 20), (5, 50), (6, 60), (8, 80)]
+private theorem exF_sorted : Sorted exF := (sortedB_iff exF).1 (by decide)
+
+example : splitUniformIter 2 1 1 0 9 true exF = some (uSpec 2 1 1 0 9 true exF) :=
+  uniform_spec 2 1 1 0 9 true exF (by decide) (by decide) (by decide) (by decide) exF_sorted
+example : (uSpec 2 1 1 0 9 true exF).length = 5 := by decide
+
+example : splitNonUniformIter [0, 3, 7] 1 2 0 9 false exF = some (nuSpec [0, 3, 7] 1 2 0 9 false exF) :=
+  nonuniform_spec_partial [0, 3, 7] 1 2 0 9 false exF (by decide) (by decide) (by decide) exF_sorted (by decide)
+example : (nuSpec [0, 3, 7] 1 2 0 9 false exF).length = 3 := by decide
+
+example := equal_spec 2 1 0 0 9 false exF (by decide) (by decide) (by decide) exF_sorted
+example := unequal_spec [1, 2] 0 1 0 9 false exF (by decide) (by decide) (by decide) exF_sorted
+example := equal_chunks 2 0 9 false exF (by decide) (by decide) exF_sorted
+example := unequal_chunks_partial [1, 2] 0 9 false exF (by decide) (by decide) (by decide) exF_sorted
+
+example := upper_ascending 2 1 1 0 9 false exF (by decide)
+example := upper_ascending_nonuniform [0, 3, 7] 1 2 0 9 false exF (by decide)
+example := halo_membership 2 1 1 0 9 exF (by decide) ⟨4, [(5, 50), (6, 60)], 4, 6⟩ (by decide)
+example := halo_cover 2 1 1 0 9 exF (by decide) 4 (by decide) (by decide) (by decide) (6, 60)
+  (by decide) (by decide) (by decide) (by decide) (by decide)
+example := halo_membership_nonuniform [0, 3, 7] 1 2 0 9 exF ⟨3, [(2, 20), (5, 50), (6, 60), (8, 80)], 3, 7⟩ (by decide)
+example := lossless 2 0 9 exF (by decide) exF_sorted
+example := lossless_nonuniform [2, 6] 0 9 exF (by decide) exF_sorted
+example := lossless_position [0, 5] 0 9 exF (by decide) exF_sorted rfl
+example := active_clip 4 1 1 1 7 false exF (by decide) (by decide) ⟨4, [(5, 50), (6, 60)], 4, 7⟩ (by decide)
+example := active_contains 4 1 7 exF (by decide) ⟨4, [(5, 50), (6, 60)], 4, 7⟩ (by decide)
+example := active_clip_nonuniform [0, 3, 7] 0 0 1 8 false exF (by decide) (by decide) ⟨0, [(1, 10), (2, 20)], 1, 3⟩ (by decide)
+example := resplit_tiles 4 2 0 9 exF (by decide) (by decide) exF_sorted
+example := truediv_parts 9 2 false exF (by decide) (by decide)
+example := floordiv_parts 5 2 0 9 false exF (by decide) (by decide)
+
+/-- the former defect witness: every fiber of depth 1 is split, the empty one included -/
+private def exT : Tree Int Int (0 + 1 + 1) :=
+  show List (Int × List (Int × Int)) from [(0, [(0, 1), (1, 2)]), (1, []), (2, [(3, 4)])]
+
+private def exR : Tree Int Int (0 + 2 + 1) :=
+  show List (Int × List (Int × List (Int × Int))) from
+    [(0, [(0, [(0, 1), (1, 2)])]), (1, []), (2, [(2, [(3, 4)])])]
+
+private def exCfg : SplitCfg := { op := .uniform 2 }
+
+private theorem exT_split : splitAt exCfg 0 0 1 exT = some exR := by decide
+
+example := depth_spec exCfg 0 0 1 exT exR exT_split [2]
+example := depth_coords exCfg 0 0 0 exT exR exT_split
+
+end
+
 end Ft
